@@ -867,6 +867,13 @@ func TestCheck(t *testing.T) {
 			scen, caseID = "corruption", fmt.Sprintf("%s/%s/%s", tk.cfg, c.name, map[bool]string{false: "alone", true: "batch"}[tk.batch])
 			detail["task"] = map[string]interface{}{"kind": "corruption", "cfg": tk.cfg, "node": tk.node, "corr": c.name, "batch": tk.batch, "cache": tk.cacheN}
 		}
+		if len(fails) > 0 && strings.HasPrefix(fails[0], "timeout:") {
+			// a wall-clock limit of the free-running miner is not an oracle: the task is reported as not covered
+			mu.Lock()
+			run.Cap(fmt.Sprintf("%s task %v: %s", tk.kind, detail["task"], fails[0]))
+			mu.Unlock()
+			return
+		}
 		run.Eval(1)
 		if len(fails) == 0 {
 			run.Class(hash64(cls))
